@@ -701,10 +701,26 @@ package sftp
 //@   assert before call (*sync.WaitGroup).Done#1: ghost.ready == old(ghost.ready) + 1
 //@   ensures ghost.wgDones == old(ghost.wgDones) + 1
 
+//@ pred notExistShape(err error) = err == os.ErrNotExist || typeis(err, syscall.Errno) || typeis(err, *os.LinkError) || typeis(err, *os.SyscallError) || (typeis(err, *os.PathError) && (err.(*os.PathError).Err == os.ErrNotExist || typeis(err.(*os.PathError).Err, syscall.Errno)))
+// (the error shapes os.IsNotExist can say yes to: the sentinel, an errno, or one of os's own wrappers around them)
+
+//@ func os.IsNotExist
+//@   trusted
+//@   ensures result ==> notExistShape(err)
+//@   ensures err == os.ErrNotExist ==> result
+//@   modifies nothing
+
 //@ func statusFromError
-//@   property C07, C02, C10
+//@   property C07, C02, C10, C05
 //@   ensures result != nil && result.ID == id
 //@   ensures err == nil ==> result.Code == sshFxOk
+//@   ensures err == os.ErrNotExist ==> result.Code == sshFxNoSuchFile
+//@   ensures err == os.ErrPermission ==> result.Code == sshFxPermissionDenied
+//@   ensures err == io.EOF ==> result.Code == sshFxEOF
+//@   ensures isErr(err, os.ErrPermission) && !notExistShape(err) ==> result.Code == sshFxPermissionDenied
+//@   ensures isErr(err, io.EOF) && !isErr(err, os.ErrPermission) && !notExistShape(err) ==> result.Code == sshFxEOF
+// (C10 / C05 error categories: the standard not-exist, permission and end-of-file errors, bare or inside os's own
+//  wrappers, keep their kind; SFTP status codes returned by handlers are passed through as given)
 
 //@ func handlePacket
 //@   update after call (*Server).toLocalPath#*: ghost.lp2 = ghost.lp1
@@ -1841,6 +1857,10 @@ package sftp
 
 //@ func translateSyscallError
 //@   property C07, C10, C05
+//@   results code, ok
+//@   ensures ok ==> typeis(err, syscall.Errno) || (typeis(err, *os.PathError) && typeis(err.(*os.PathError).Err, syscall.Errno))
+//@   ensures typeis(err, syscall.Errno) ==> ok
+//@   modifies nothing
 
 //@ func translateErrno
 //@   property C07, C10, C05
